@@ -465,6 +465,11 @@ def check_C12(ctx):
         eng_gated.gateable_composite_reentry_part(ctx)
     except Exception as e:  # the gated engine is optional for this check
         part["gated_reentry_part_error"] = repr(e)
+    try:
+        import eng_broker
+        eng_broker.hang_part(ctx)
+    except Exception as e:
+        part["broker_hang_part_error"] = repr(e)
     timeouts, outside = [], []
     if dyn:
         summ, results = dyn
